@@ -68,6 +68,9 @@ type c08NodeX struct {
 	// proposals a flow added WHILE Observation ran, after the pre-build hooks and before the build hooks read the store
 	// (scripted interleaving, see c08_helpers_test.go)
 	Readd []JProp `json:"readd,omitempty"`
+	// a second block-history view the store held while Observation ran (an update arrived through the subscription
+	// during the call): the observation must carry one of the two
+	HistAlt []JBK `json:"histAlt,omitempty"`
 }
 
 type c08PoolEntry struct {
